@@ -8,6 +8,7 @@ or outside quotes (indentation, bare block names).
 from __future__ import annotations
 
 import ast
+import re
 from typing import Any, Dict, Iterator, List, Optional, Sequence, Set, Tuple
 
 from .model import AnalysisError, Module, call_name, dotted, walk_no_nested
@@ -51,6 +52,23 @@ def flatten(expr: ast.AST, consts: Optional[Dict[str, str]] = None) -> List[Piec
         return out
     if isinstance(expr, ast.BinOp) and isinstance(expr.op, ast.Add):
         return flatten(expr.left, consts) + flatten(expr.right, consts)
+    if isinstance(expr, ast.BinOp) and isinstance(expr.op, ast.Mod) and isinstance(expr.left, ast.Constant) and isinstance(expr.left.value, str):
+        # 'constant template' % args with only %s / %% directives is the same text as the f-string with those arguments
+        args = list(expr.right.elts) if isinstance(expr.right, ast.Tuple) else [expr.right]
+        if not isinstance(expr.right, (ast.Dict, ast.Starred)) and not any(isinstance(a, ast.Starred) for a in args):
+            parts = re.split(r'(%.)', expr.left.value)
+            dirs = [x for x in parts if len(x) == 2 and x[0] == '%']
+            if all(d in ('%s', '%%') for d in dirs) and sum(d == '%s' for d in dirs) == len(args) and not expr.left.value.endswith('%'):
+                out = []
+                it = iter(args)
+                for x in parts:
+                    if x == '%s':
+                        out.append(Piece('expr', node=next(it)))
+                    elif x == '%%':
+                        out.append(Piece('lit', '%'))
+                    elif x:
+                        out.append(Piece('lit', x))
+                return out
     return [Piece('expr', node=expr)]
 
 
